@@ -909,12 +909,9 @@ func ruleHashProg() string {
 		failShape("ruleHash: last statement is not `return h.Sum(nil)`")
 	}
 	tr.stmts(body[1 : len(body)-1])
-	// RuleHash (the exported wrapper) must still select ruleHash(state, target, runtime|false)
-	matchBody("RuleHash", bodyStrings(fset, findFunc(f, "", "RuleHash")), []string{
-		"if runtime || (postBuild && target.BuildCouldModifyTarget()) {\n\treturn ruleHash(state, target, runtime)\n}",
-		"if len(target.RuleHash) != 0 {\n\treturn target.RuleHash\n}",
-		"target.RuleHash = ruleHash(state, target, false)",
-		"return target.RuleHash"}, -1)
+	// RuleHash (the exported wrapper): translated, not pinned - the bypass condition and BuildCouldModifyTarget become
+	// boolean expressions that Proof/C08_Cache.v analyses by computation (gen_wrapper_ok)
+	wrapper := tr.ruleHashWrapper()
 
 	js, err := json.MarshalIndent(tr.out, "", " ")
 	if err != nil {
@@ -934,5 +931,144 @@ func ruleHashProg() string {
 		b.WriteString("  " + e.coq())
 	}
 	b.WriteString("\n].\n")
+	b.WriteString("(* build.RuleHash, the memoising wrapper of ruleHash, and BuildTarget.BuildCouldModifyTarget *)\n")
+	b.WriteString("Definition rule_hash_wrapper : wrapper :=\n  " + wrapper + ".\n")
 	return b.String()
+}
+
+// ---- the RuleHash wrapper
+
+// boolean expression over a closed set of atoms; `atom` returns the Coq constructor of an atom or "" if it is not one
+func (tr *rhTrans) bexp(fset *token.FileSet, e ast.Expr, what string, atom func(ast.Expr) string) string {
+	if a := atom(e); a != "" {
+		return "(BVar " + a + ")"
+	}
+	switch x := e.(type) {
+	case *ast.ParenExpr:
+		return tr.bexp(fset, x.X, what, atom)
+	case *ast.Ident:
+		if x.Name == "true" || x.Name == "false" {
+			return "(BConst " + x.Name + ")"
+		}
+	case *ast.UnaryExpr:
+		if x.Op == token.NOT {
+			return "(BNot " + tr.bexp(fset, x.X, what, atom) + ")"
+		}
+	case *ast.BinaryExpr:
+		switch x.Op {
+		case token.LOR:
+			return "(BOr " + tr.bexp(fset, x.X, what, atom) + " " + tr.bexp(fset, x.Y, what, atom) + ")"
+		case token.LAND:
+			return "(BAnd " + tr.bexp(fset, x.X, what, atom) + " " + tr.bexp(fset, x.Y, what, atom) + ")"
+		}
+	}
+	failShape("%s: condition %s is not a boolean combination of the known atoms", what, nodeStr(fset, e))
+	return ""
+}
+
+func (tr *rhTrans) ruleHashWrapper() string {
+	norm := func(x string) string { return strings.Join(strings.Fields(x), " ") }
+	fd := findFunc(tr.file, "", "RuleHash")
+	names := []string{}
+	for _, p := range fd.Type.Params.List {
+		for _, n := range p.Names {
+			names = append(names, n.Name)
+		}
+	}
+	if len(names) != 4 {
+		failShape("RuleHash: expected (state, target, runtime, postBuild), got %v", names)
+	}
+	state, target, runtime, postBuild := names[0], names[1], names[2], names[3]
+	body := fd.Body.List
+	if len(body) != 4 {
+		failShape("RuleHash: body has %d statements, expected 4:\n%s", len(body), strings.Join(bodyStrings(tr.fset, fd), "\n"))
+	}
+	// ruleHash(state, target, X) -> rtarg
+	rtArg := func(e ast.Expr) string {
+		c, ok := e.(*ast.CallExpr)
+		if !ok || !isIdent(c.Fun, "ruleHash") || len(c.Args) != 3 || !isIdent(c.Args[0], state) || !isIdent(c.Args[1], target) {
+			failShape("RuleHash: %s is not ruleHash(%s, %s, _)", tr.str(e), state, target)
+		}
+		switch {
+		case isIdent(c.Args[2], runtime):
+			return "RtParam"
+		case isIdent(c.Args[2], "true"):
+			return "(RtConst true)"
+		case isIdent(c.Args[2], "false"):
+			return "(RtConst false)"
+		}
+		failShape("RuleHash: third argument of %s not recognised", tr.str(e))
+		return ""
+	}
+	// 1. if COND { return ruleHash(state, target, X) }
+	is, ok := body[0].(*ast.IfStmt)
+	if !ok || is.Init != nil || is.Else != nil || len(is.Body.List) != 1 {
+		failShape("RuleHash: first statement is not `if cond { return ruleHash(..) }`")
+	}
+	ret, ok := is.Body.List[0].(*ast.ReturnStmt)
+	if !ok || len(ret.Results) != 1 {
+		failShape("RuleHash: first statement is not `if cond { return ruleHash(..) }`")
+	}
+	bypassRt := rtArg(ret.Results[0])
+	bypass := tr.bexp(tr.fset, is.Cond, "RuleHash", func(e ast.Expr) string {
+		switch {
+		case isIdent(e, runtime):
+			return "WRuntime"
+		case isIdent(e, postBuild):
+			return "WPostBuild"
+		}
+		if c, ok := e.(*ast.CallExpr); ok && len(c.Args) == 0 && norm(tr.str(c.Fun)) == target+".BuildCouldModifyTarget" {
+			return "WCouldModify"
+		}
+		return ""
+	})
+	// 2. if len(target.RuleHash) != 0 { return target.RuleHash }      4. return target.RuleHash
+	memo := target + ".RuleHash"
+	if norm(tr.str(body[1])) != norm("if len("+memo+") != 0 { return "+memo+" }") {
+		failShape("RuleHash: second statement is not the memo lookup: %s", tr.str(body[1]))
+	}
+	if norm(tr.str(body[3])) != "return "+memo {
+		failShape("RuleHash: last statement is not `return %s`", memo)
+	}
+	// 3. target.RuleHash = ruleHash(state, target, X)
+	as, ok := body[2].(*ast.AssignStmt)
+	if !ok || as.Tok != token.ASSIGN || len(as.Lhs) != 1 || len(as.Rhs) != 1 || norm(tr.str(as.Lhs[0])) != memo {
+		failShape("RuleHash: third statement is not `%s = ruleHash(..)`", memo)
+	}
+	fillRt := rtArg(as.Rhs[0])
+	// the memo field must not be written anywhere else in package build's incrementality.go (the model's only writer is statement 3)
+	writes := 0
+	ast.Inspect(tr.file, func(n ast.Node) bool {
+		if a, ok := n.(*ast.AssignStmt); ok {
+			for _, l := range a.Lhs {
+				if sel, ok := l.(*ast.SelectorExpr); ok && sel.Sel.Name == "RuleHash" {
+					writes++
+				}
+			}
+		}
+		return true
+	})
+	if writes != 1 {
+		failShape("incrementality.go assigns a .RuleHash field %d times, the model knows one writer", writes)
+	}
+	// BuildTarget.BuildCouldModifyTarget: return <boolean combination of the two known atoms>
+	cfd := findFunc(tr.core, "BuildTarget", "BuildCouldModifyTarget")
+	if len(cfd.Body.List) != 1 {
+		failShape("BuildCouldModifyTarget: body has %d statements", len(cfd.Body.List))
+	}
+	cret, ok := cfd.Body.List[0].(*ast.ReturnStmt)
+	if !ok || len(cret.Results) != 1 {
+		failShape("BuildCouldModifyTarget: body is not a single return")
+	}
+	recv := cfd.Recv.List[0].Names[0].Name
+	could := tr.bexp(tr.cfset, cret.Results[0], "BuildCouldModifyTarget", func(e ast.Expr) string {
+		switch norm(nodeStr(tr.cfset, e)) {
+		case recv + ".PostBuildFunction != nil":
+			return "MPostBuildFn"
+		case "len(" + recv + ".OutputDirectories) > 0", "len(" + recv + ".OutputDirectories) != 0":
+			return "MOutputDirs"
+		}
+		return ""
+	})
+	return "Wrapper " + bypass + " " + bypassRt + " " + fillRt + " " + could
 }
